@@ -10,7 +10,10 @@ LEVEL = "exploration"
 EXHAUSTIVE = True
 RULE = ("exhaustive: all 256 byte values (decode, re-encode, distinctness, ASCII on 0x00-0x7E, KOI8-R on 0xC0-0xFF, and each "
         "character through '.ascii' and a 'c literal in a real assembly); all 0x110000 code points (encodable iff one of the 256 "
-        "table characters or the documented alias U+00A4 -> 0x24; otherwise UnicodeEncodeError naming position and codec); random "
+        "table characters or the documented alias U+00A4 -> 0x24; otherwise UnicodeEncodeError naming position and codec); every "
+        "unencodable BMP code point (plus every 257th astral one, plus each table letter followed by one of 13 combining marks) in real "
+        "assemblies in 3 (thorough: all 9) of the places where source characters are encoded - .ascii/.asciz with each quote, open and "
+        "closed character literals, two-character literals, immediates - each of which must be refused with invalid-character; random "
         "strings of <= 40 characters with offenders at drawn positions, directly and through '.ascii'/'.asciz'/'c programs. "
         "Non-trivial: every exhaustive case; random strings with >= 1 offender not at index 0 or >= 2 distinct encodable characters. "
         "Distinct = distinct byte / code point / string.")
@@ -26,6 +29,8 @@ def shards(tier):
     n = 16
     for i in range(n):
         specs.append({"part": "codepoints", "lo": N_CP * i // n, "hi": N_CP * (i + 1) // n})
+    for i in range(n):
+        specs.append({"part": "asm-codepoints", "i": i, "n": n, "tier": tier})
     k = 8
     per = (2000 if tier == "quick" else 50000) // k
     for i in range(k):
@@ -113,6 +118,52 @@ def run_shard(spec, ctx):
         ctx.extra["codepoints_checked"] = spec["hi"] - spec["lo"]
         ctx.classes["codepoint"] += spec["hi"] - spec["lo"]
         ctx.samples.append(f"U+{spec['lo']:04X}..U+{spec['hi'] - 1:04X} each encoded on its own")
+    elif part == "asm-codepoints":
+        # every unencodable BMP code point, and every table character followed by a combining mark, through real assemblies in
+        # every place where pdpy11 encodes source characters; each line of a batch must be refused with invalid-character
+        import bisect
+        chars = table()
+        enc = set(chars) | set(ALIASES)
+        items = [chr(cp) for cp in range(0x10000) if not 0xD800 <= cp <= 0xDFFF and chr(cp) not in enc]
+        items += [chr(cp) for cp in range(0x10000, 0x110000, 257)]
+        marks = [chr(m) for m in (0x300, 0x301, 0x302, 0x303, 0x306, 0x308, 0x30A, 0x30C, 0x327, 0x328, 0x338, 0x342, 0x345)]
+        items += [c + m for c in chars if c and (c.isalpha() or c in "<=>;`") for m in marks]
+        items = items[spec["i"]::spec["n"]]
+        contexts = ['\t.ascii "{}"', "\t.asciz /a{}b/", "\t.word '{}", "\t.word '{}'", "\t.byte '{}'", "\tmov #'{}, r0", '\t.word "{}a', '\t.word "a{}"', "\t.ascii 'ab'<12>'{}'"]
+        LINEBREAKS = "\n\r\x0b\x0c\x1c\x1d\x1e\x85\u2028\u2029"
+        for b in range(0, len(items), 128):
+            chunk = items[b:b + 128]
+            lines = []
+            for j, it in enumerate(chunk):
+                which = range(len(contexts)) if spec["tier"] == "thorough" else [(b + j) % len(contexts), (b + j + 3) % len(contexts), (b + j + 7) % len(contexts)]
+                for w in which:
+                    if len(it) > 1 and w in (2, 3, 4, 5, 6, 7):
+                        continue        # a character literal holds one (or exactly two) characters
+                    lines.append((it, w, contexts[w].format(it)))
+            solo = [i for i, (it, w, line) in enumerate(lines) if any(ch in LINEBREAKS for ch in it)]
+            batch = [i for i in range(len(lines)) if i not in set(solo)]
+            text = "\n".join(lines[i][2] for i in batch) + "\n"
+            out = driver.assemble([("/vf/c14a.mac", text)], timeout=60)
+            suspects = list(solo)
+            if out.kind != "error":
+                suspects = list(range(len(lines)))
+            else:
+                starts = [0]
+                for i in batch:
+                    starts.append(starts[-1] + len(lines[i][2]) + 1)
+                flagged = set()
+                for sev, ident, spans in out.reports:
+                    if sev != "warning" and ident == "invalid-character" and spans:
+                        flagged.add(bisect.bisect_right(starts, spans[0][1]) - 1)
+                suspects += [i for k_, i in enumerate(batch) if k_ not in flagged]
+            for it, w, line in lines:
+                ctx.case((it, w), True, [f"asm-context-{w}", "asm-combining" if len(it) > 1 else "asm-single"],
+                         sample=line.strip() if it in ("\u212a", "\u0438\u0306", "\u20ac", "\u037e") and w in (0, 3) else None)
+            for i in suspects:
+                it, w, line = lines[i]
+                case = oracle.expect_error(oracle.single(line + "\n"), ["invalid-character"])
+                for sig, msg in oracle.check_expect(case, prefix=f"asm-codepoint:context-{w}:"):
+                    ctx.fail(sig, f"{line!r} ({' '.join(f'U+{ord(ch):04X}' for ch in it)}): {msg}", case)
     elif part == "strings":
         chars = table()
         good = [c for c in chars if c is not None and len(c) == 1 and c not in '\r\x00'] + ["\\", "\\", '"']
